@@ -420,6 +420,10 @@ func c05GenTimed(r *hx.RNG, engine string, production bool) c05TimedCase {
 		case 2, 3:
 			c.Max = 255
 			c.Min = r.Range(246, 255)
+		case 4, 5:
+			if engine == "ser" { // one goroutine: nothing to tie with
+				c.Delay = 0
+			}
 		}
 	}
 	c.Timeout += 250 * time.Nanosecond
